@@ -9,6 +9,10 @@
 //!   look-up); after loading everything the files of `changed` are edited and notified, the
 //!   scripts of `panicking` get a `#` (loader panic), then ONE `hot_reload()`.
 //!   Result: `reloaded <sorted ids>` | `aborted` (child killed by a signal) | `blocked`.
+//! * `hr.bulk <n>` — one asset whose edited script loads `n` never-cached assets (`+S1:x0 … +S1:x{n-1}`);
+//!   edit + notify + ONE `hot_reload()`. Every such load makes the *reloader thread* send `AddAsset`
+//!   on the cache→reloader channel it is the only consumer of: the call returns only if that send
+//!   never blocks. Result: `returned <number of x assets cached>` | `blocked`.
 //! * `hr.conc <threads> <calls> <loaders> <events>` — `threads` threads call `hot_reload()` `calls`
 //!   times each while `loaders` threads load / `get_or_insert` and `events` threads edit + notify.
 //!   The model is asked whether some schedule explains the outcome (`returned` / `blocked`).
@@ -43,6 +47,12 @@ fn parse_update(w: &[&str]) -> Option<UpdateOp> {
     }
     let nums = |g: &[&str]| -> Option<Vec<usize>> { g.iter().map(|x| x.parse::<usize>().ok().filter(|v| *v < n)).collect() };
     Some(UpdateOp { n, edges, changed: nums(groups[1])?, pan: nums(groups[2])? })
+}
+
+fn parse_bulk(w: &[&str]) -> Option<usize> {
+    if w.len() != 2 { return None; }
+    let n: usize = w[1].parse().ok()?;
+    if n == 0 || n > 5000 { None } else { Some(n) }
 }
 
 fn parse_conc(w: &[&str]) -> Option<(usize, usize, usize, usize)> {
@@ -92,6 +102,11 @@ impl Engine for HrLiveEngine {
         }
         if idx == 16 { return vec!["hr.conc 4 400 0 0".into()]; }
         if idx == 17 { return vec!["hr.update 3 0*1 1*2 / 2 / 1".into()]; }
+        if idx == 18 { return vec!["hr.bulk 300".into()]; }
+        if rng.chance(1, 12) {
+            let n = *rng.pick(if thorough { &[1usize, 100, 129, 300, 1000, 3000][..] } else { &[40usize, 300][..] });
+            return vec![format!("hr.bulk {n}")];
+        }
         match rng.below(20) {
             0..=7 => {
                 let n = rng.range(1, if thorough { 10 } else { 6 });
@@ -119,7 +134,7 @@ impl Engine for HrLiveEngine {
             _ => {
                 // malformed stream: both sides must refuse
                 let bad = ["hr.update 0 / /", "hr.update 2 0>5 / 0 /", "hr.update 2 0>1 / 7 /", "hr.update 2 0>1 / 0", "hr.conc 0 10 0 0",
-                           "hr.update x / /", "hr.conc 2 ten 0 0", "hr.update 2 0-1 / 0 /", "hr.nothing 1"];
+                           "hr.update x / /", "hr.conc 2 ten 0 0", "hr.update 2 0-1 / 0 /", "hr.nothing 1", "hr.bulk 0", "hr.bulk many", "hr.bulk 99999"];
                 vec![rng.pick(&bad).to_string()]
             }
         }
@@ -175,6 +190,39 @@ impl Engine for HrLiveEngine {
                             rec.op(model_line, "blocked");
                         }
                         Exit::Timeout => { rec.oracle_fail(format!("child-timeout `{line}` still busy after {} s", child::HARD_LIMIT.as_secs())); rec.op(model_line, "timeout"); }
+                    }
+                }
+                "hr.bulk" => {
+                    let n = match parse_bulk(&w) { Some(n) => n, None => { rec.op(line.clone(), "bad-op"); rec.stat("malformed"); continue; } };
+                    rec.nontrivial = true;
+                    rec.stat(format!("bulk/n={}", if n <= 128 { "<=128" } else if n <= 1000 { "129..1000" } else { ">1000" }));
+                    let out = child::run_child("hrlive", line);
+                    for o in &out.oracle { rec.oracle_fail(o.clone()); }
+                    match &out.exit {
+                        Exit::Code(0) => {
+                            let res = out.results.iter().find(|r| r.starts_with("returned ")).cloned().unwrap_or_else(|| "no-result".into());
+                            rec.stat("bulk/outcome=returned");
+                            if res != format!("returned {n}") { rec.oracle_fail(format!("bulk-reload-incomplete `{line}`: {res}, expected all {n} newly loaded assets cached after the reload")); }
+                            rec.op(line.clone(), res);
+                        }
+                        Exit::Code(c) => { rec.oracle_fail(format!("child-failed exit code {c}: {}", out.stderr.lines().last().unwrap_or(""))); rec.op(line.clone(), format!("child-exit-{c}")); }
+                        Exit::Signal(sig) => { rec.oracle_fail(format!("child-crashed `{line}`: killed by signal {sig}")); rec.op(line.clone(), "aborted"); }
+                        Exit::Blocked(snap) => {
+                            rec.stat("bulk/outcome=blocked");
+                            // observation: pending messages on the cache->reloader channel while its only consumer sleeps
+                            let pending = out.results.iter().rev().find_map(|r| r.strip_prefix("pending ").and_then(|x| x.parse::<usize>().ok()));
+                            let cls = if !reloader_present(snap) { "reload-panic-never-answered" }
+                                      else if pending.unwrap_or(0) > 0 { "reloader-blocked-on-own-channel" }
+                                      else { "single-caller-never-answered" };
+                            let what = match cls {
+                                "reloader-blocked-on-own-channel" => format!("the reloader thread is alive and asleep while {} message(s) wait on the channel only it consumes: it blocked sending AddAsset to itself", pending.unwrap_or(0)),
+                                "reload-panic-never-answered" => "the reloader thread is gone (it died during the reload)".to_string(),
+                                _ => "the reloader thread is alive and asleep, its channel is empty: the single caller was never answered".to_string(),
+                            };
+                            rec.oracle_fail(format!("{cls} `{line}`: hot_reload() never returned: all threads asleep, no progress for 2 s; {what}; threads {snap:?}"));
+                            rec.op(line.clone(), "blocked");
+                        }
+                        Exit::Timeout => { rec.oracle_fail(format!("child-timeout `{line}`")); rec.op(line.clone(), "timeout"); }
                     }
                 }
                 "hr.conc" => {
@@ -306,10 +354,48 @@ fn child_conc(t: usize, calls: usize, loaders: usize, events: usize) {
     println!("R returned");
 }
 
+fn child_bulk(n: usize) {
+    crate::exec_world::quiet_panics();
+    let src = MemSource::new(true);
+    src.put("a0", "s", FileSt::Bytes(b"1".to_vec().into(), 0));
+    for i in 0..n { src.put(&format!("x{i}"), "s", FileSt::Bytes(format!("{}", i % 7).into_bytes().into(), 0)); }
+    let cache = AssetCache::with_source(src.clone());
+    if let Err(e) = cache.load::<S<0>>("a0") { println!("O child-load-failed a0: {}", canon_error(&e)); }
+    progress();
+    let mut script = String::from("2");
+    for i in 0..n { script.push_str(&format!(" +S1:x{i}")); }
+    src.put("a0", "s", FileSt::Bytes(script.into_bytes().into(), 0));
+    let tx = src.sender().expect("hot source has a sender");
+    let _ = tx.send(OwnedDirEntry::File("a0".into(), "s".into()));
+    let t0 = std::time::Instant::now();
+    while tx.verif_pending() > 0 && t0.elapsed().as_secs() < 10 { std::thread::yield_now(); }
+    progress();
+    let done = std::sync::atomic::AtomicBool::new(false);
+    std::thread::scope(|s| {
+        let (cache, done) = (&cache, &done);
+        // side observer (excluded from the watchdog by its name): messages waiting on the cache->reloader channel
+        std::thread::Builder::new().name(child::REPORTER.into()).spawn_scoped(s, move || {
+            while !done.load(std::sync::atomic::Ordering::Relaxed) {
+                if let Some(p) = cache.verif_msgs_pending() { println!("R pending {p}"); }
+                std::thread::sleep(std::time::Duration::from_millis(100));
+            }
+        }).unwrap();
+        cache.hot_reload();
+        progress();
+        done.store(true, std::sync::atomic::Ordering::Relaxed);
+    });
+    let cached = (0..n).filter(|i| cache.contains::<S<1>>(&format!("x{i}"))).count();
+    let v = cache.get_cached::<S<0>>("a0").map(|h| h.read().0);
+    let expect: i64 = 2 + (0..n).map(|i| (i % 7) as i64).sum::<i64>();
+    if v != Some(expect) { println!("O bulk-value-wrong a0 = {v:?} after the reload, expected {expect}"); }
+    println!("R returned {cached}");
+}
+
 pub fn child_main(line: &str) {
     let w: Vec<&str> = line.split_whitespace().collect();
     match w.first().copied() {
         Some("hr.update") => match parse_update(&w) { Some(op) => child_update(&op), None => std::process::exit(3) },
+        Some("hr.bulk") => match parse_bulk(&w) { Some(n) => child_bulk(n), None => std::process::exit(3) },
         Some("hr.conc") => match parse_conc(&w) { Some((t, c, l, e)) => child_conc(t, c, l, e), None => std::process::exit(3) },
         _ => std::process::exit(3),
     }
